@@ -79,6 +79,38 @@ type caseT struct {
 	Coinc   []string `json:"coinc"`
 	FailNum []string `json:"failNum"`
 	FailMin []string `json:"failMin"`
+	// JSX twin of a generated tree: every name capitalised (a bijection on the alphabet, so the
+	// specification's resolution carries over), references rendered as JSX component tags <X />,
+	// compiled with JSX preserved (component names must stay capitalised)
+	JSX bool `json:"jsx,omitempty"`
+}
+
+func capName(n string) string {
+	if n == "arguments" || n == "eval" || n == "" || n[0] < 'a' || n[0] > 'z' {
+		return n
+	}
+	return strings.ToUpper(n[:1]) + n[1:]
+}
+
+// jsxTwin returns a deep copy of the case with capitalised names
+func jsxTwin(c *caseT) *caseT {
+	b, _ := json.Marshal(c)
+	var t caseT
+	json.Unmarshal(b, &t)
+	t.JSX = true
+	for i := range t.Decls {
+		t.Decls[i].Name = capName(t.Decls[i].Name)
+	}
+	for i := range t.Refs {
+		t.Refs[i].Name = capName(t.Refs[i].Name)
+	}
+	for i := range t.Syms {
+		t.Syms[i].N = capName(t.Syms[i].N)
+	}
+	for i := range t.Free {
+		t.Free[i] = capName(t.Free[i])
+	}
+	return &t
 }
 
 // ---------------------------------------------------------------------------
@@ -92,6 +124,7 @@ type program struct {
 	HasWith  bool
 	HasEval  bool
 	Expect   map[string]interface{} // reference id -> value the specification predicts for the deferred read
+	JSXFiles map[string]string      // JSX twin: the files given to esbuild (<X />); Files holds the equivalent __JSX(X, null) form executed as the input
 	NFiles   int
 	Wrapped  bool                // some file has a wrapper kind other than "none"
 	FTypes   map[string]string   // file -> "esm" | "cjs" (how the reference loader of the Node runner treats it)
@@ -103,6 +136,7 @@ type renderer struct {
 	c        *caseT
 	children map[int][]int
 	sb       *strings.Builder
+	jsx      int // 0: plain; 1: references as JSX tags <X />; 2: as the calls __JSX(X, null) the tags stand for
 }
 
 func marker(m int) int { return 100 + m }
@@ -114,6 +148,13 @@ func (g *renderer) refExpr(k int) string {
 	// an eval string is invisible to any compiler and stays a plain reference
 	if g.c.Scopes[rf.Scope-1].Ev && g.c.Res[k] != 0 {
 		read = fmt.Sprintf("eval(%q)", rf.Name)
+	}
+	if g.jsx != 0 && read == rf.Name && k%3 != 2 && rf.Name != "arguments" && rf.Name != "eval" && !(rf.Name[0] >= 'a' && rf.Name[0] <= 'z') {
+		if g.jsx == 1 {
+			read = "<" + rf.Name + " />"
+		} else {
+			read = "__JSX(" + rf.Name + ", null)"
+		}
 	}
 	return fmt.Sprintf("__L(%d, %s, () => %s)", k+1, read, read)
 }
@@ -263,8 +304,17 @@ func expectOf(c *caseT, k int) interface{} {
 }
 
 func render(c *caseT, splitting bool) *program {
+	if c.JSX {
+		p := renderJ(c, splitting, 2)
+		p.JSXFiles = renderJ(c, splitting, 1).Files
+		return p
+	}
+	return renderJ(c, splitting, 0)
+}
+
+func renderJ(c *caseT, splitting bool, jsx int) *program {
 	p := &program{Files: map[string]string{}, Expect: map[string]interface{}{}}
-	g := &renderer{c: c, children: map[int][]int{}}
+	g := &renderer{c: c, children: map[int][]int{}, jsx: jsx}
 	nf := 0
 	for i, sc := range c.Scopes {
 		if sc.Kind == "file" {
@@ -419,6 +469,7 @@ type config struct {
 	KeepNames bool   `json:"keepNames"`
 	Target    string `json:"target"` // "", es2019
 	Splitting bool   `json:"splitting"`
+	JSX       bool   `json:"jsx,omitempty"` // JSX preserved (only for JSX twins)
 }
 
 func (c config) String() string {
@@ -437,6 +488,9 @@ func (c config) String() string {
 	}
 	if c.Splitting {
 		s += "+split"
+	}
+	if c.JSX {
+		s += "+jsx"
 	}
 	return s
 }
@@ -472,6 +526,32 @@ func allConfigs(c *caseT, p *program) []config {
 func allConfigs0(c *caseT, p *program) []config {
 	var out []config
 	bools := []bool{false, true}
+	if c.JSX {
+		if c.Sloppy {
+			for _, f := range []string{"", "iife", "cjs"} {
+				for _, m := range bools {
+					out = append(out, config{Mode: "transform", Format: f, Minify: m, JSX: true})
+				}
+			}
+			return out
+		}
+		for _, f := range []string{"esm", "iife", "cjs"} {
+			for _, m := range bools {
+				out = append(out, config{Mode: "build", Format: f, Minify: m, JSX: true})
+			}
+		}
+		if p.NFiles >= 2 && !p.Wrapped {
+			out = append(out, config{Mode: "build", Format: "esm", Minify: true, Splitting: true, JSX: true})
+		}
+		if p.NFiles == 1 {
+			for _, f := range []string{"", "cjs", "iife"} {
+				for _, m := range bools {
+					out = append(out, config{Mode: "transform", Format: f, Minify: m, JSX: true})
+				}
+			}
+		}
+		return out
+	}
 	if c.Sloppy {
 		// a sloppy script is not converted to an ES module: that changes the
 		// language mode (function-in-block semantics, "with"), not names
@@ -559,6 +639,10 @@ func compile(r *core.Run, dir string, p *program, cf config) compiled {
 	if cf.Mode == "transform" {
 		opts := api.TransformOptions{Format: apiFormat(cf.Format), MinifyIdentifiers: cf.Minify, KeepNames: cf.KeepNames,
 			Target: target, Loader: api.LoaderJS, Sourcefile: "f1.js", LogLevel: api.LogLevelSilent}
+		src := p.Files["f1.js"]
+		if cf.JSX {
+			opts.Loader, opts.JSX, src = api.LoaderJSX, api.JSXPreserve, p.JSXFiles["f1.js"]
+		}
 		if cf.Format == "iife" && strings.Contains(p.Files["f1.js"], "export {") {
 			opts.GlobalName = globalName
 			out.Global = globalName
@@ -566,12 +650,15 @@ func compile(r *core.Run, dir string, p *program, cf config) compiled {
 		if cf.Format == "" && strings.Contains(p.Files["f1.js"], "export {") {
 			out.Kind = "esm"
 		}
-		res := api.Transform(p.Files["f1.js"], opts)
+		res := api.Transform(src, opts)
 		if len(res.Errors) > 0 {
 			out.Err = msgText(res.Errors)
 			return out
 		}
 		out.Files["f1.js"] = string(res.Code)
+		if cf.JSX {
+			lowerJSX(&out)
+		}
 		out.Entries = []string{"f1.js"}
 		return out
 	}
@@ -585,6 +672,10 @@ func compile(r *core.Run, dir string, p *program, cf config) compiled {
 	if cf.Format == "iife" {
 		opts.GlobalName = globalName
 		out.Global = globalName
+	}
+	if cf.JSX {
+		opts.Loader = map[string]api.Loader{".js": api.LoaderJSX}
+		opts.JSX = api.JSXPreserve
 	}
 	res := api.Build(opts)
 	if len(res.Errors) > 0 {
@@ -600,7 +691,24 @@ func compile(r *core.Run, dir string, p *program, cf config) compiled {
 		out.Files[filepath.ToSlash(rel)] = string(f.Contents)
 	}
 	out.Entries = append(out.Entries, p.Entries...)
+	if cf.JSX {
+		lowerJSX(&out)
+	}
 	return out
+}
+
+// lowerJSX makes an output with preserved JSX executable: every file goes through a second,
+// non-renaming pass of esbuild (no bundling, no minification, default format) that turns
+// <X /> into __JSX(X, null); the Node runner defines __JSX as the function that returns the tag
+func lowerJSX(out *compiled) {
+	for name, code := range out.Files {
+		res := api.Transform(code, api.TransformOptions{Loader: api.LoaderJSX, JSX: api.JSXTransform, JSXFactory: "__JSX", Sourcefile: name, LogLevel: api.LogLevelSilent})
+		if len(res.Errors) > 0 {
+			// not hidden: an output that does not parse is reported by the execution
+			continue
+		}
+		out.Files[name] = string(res.Code)
+	}
 }
 
 // ---------------------------------------------------------------------------
@@ -863,6 +971,28 @@ func causeOf(c *caseT, cf config, bad []int, errText string) string {
 		return "class-expr-name-in-eval-scope"
 	case pinNR:
 		return "pinned-nested-name-not-reserved"
+	case cf.JSX && cf.Minify && errText == "" && all(func(k int) bool {
+		// a reference rendered as a JSX tag whose symbol is merged from several declarations
+		// (var redeclared, var or function with the name of a parameter): the "must start with
+		// a capital letter" mark of the merged-away symbol is lost, the tag becomes <n />
+		y := c.Res[k-1]
+		if y == 0 || (k-1)%3 == 2 {
+			return false
+		}
+		n := 0
+		for _, d := range c.Decls {
+			if d.Name == c.Syms[y-1].N && (d.Kind == "var" || d.Kind == "param" || d.Kind == "fun") {
+				n++
+			}
+		}
+		return n >= 2
+	}):
+		return "jsx-capital-mark-lost-on-merged-symbol"
+	case cf.JSX && cf.Minify && (strings.Contains(errText, "has already been declared") ||
+		(errText == "" && all(func(k int) bool { y := c.Res[k-1]; return y == 0 || c.Syms[y-1].Pinned }))):
+		// a symbol used as a JSX tag took a capitalised name that is reserved: every differing
+		// reference is a free name or a pinned symbol (captured), or the name is declared twice
+		return "jsx-capital-name-not-checked-against-reserved"
 	case len(bad) == 0 && len(fnInCls) > 0:
 		return "block-function-in-class-body"
 	case len(bad) == 0 && len(clsSelf) > 0:
@@ -877,7 +1007,7 @@ func (u *unit) key(cf config, what string, bad []int, errText string) map[string
 		renamer = "minify"
 	}
 	return map[string]interface{}{"case": u.hash, "mode": cf.Mode, "format": cf.Format, "minify": cf.Minify, "keepNames": cf.KeepNames,
-		"target": cf.Target, "splitting": cf.Splitting, "sloppy": u.c.Sloppy, "what": what, "renamer": renamer, "cause": causeOf(u.c, cf, bad, errText)}
+		"target": cf.Target, "splitting": cf.Splitting, "jsx": cf.JSX, "sloppy": u.c.Sloppy, "what": what, "renamer": renamer, "cause": causeOf(u.c, cf, bad, errText)}
 }
 
 type stats struct {
@@ -914,7 +1044,11 @@ func process(r *core.Run, units []*unit, st *stats) {
 		dir := ""
 		if !u.c.Sloppy {
 			dir = filepath.Join(r.Scratch, fmt.Sprintf("case-%d", u.idx))
-			core.WriteTree(dir, u.progs[false].Files)
+			if u.c.JSX {
+				core.WriteTree(dir, u.progs[false].JSXFiles)
+			} else {
+				core.WriteTree(dir, u.progs[false].Files)
+			}
 		}
 		u.outs = make([]compiled, len(u.configs))
 		for k, cf := range u.configs {
@@ -1324,6 +1458,11 @@ func Run(r *core.Run) {
 		fmt.Sscan(v, &maxRounds)
 	}
 	nconf := r.Pick(3, 8)
+	// JSX twins: of every 4th tree (thorough: every 2nd), 2 configurations each; developer knob VERIF_C15_JSX=<every>
+	jsxEvery, jsxTwins := r.Pick(4, 2), 0
+	if v := os.Getenv("VERIF_C15_JSX"); v != "" {
+		fmt.Sscan(v, &jsxEvery)
+	}
 	if only == "props" || only == "cex" {
 		maxRounds = 0
 	}
@@ -1363,6 +1502,20 @@ func Run(r *core.Run) {
 			u.configs = pickConfigs(all, nconf, u.idx+int(r.Seed))
 		}
 		total += len(units)
+		if jsxEvery > 0 {
+			// JSX twins of every jsxEvery-th tree (capitalised names, references as component tags, JSX preserved)
+			for _, u := range append([]*unit{}, units...) {
+				if u.idx%jsxEvery != 0 {
+					continue
+				}
+				t := jsxTwin(u.c)
+				raw, _ := json.Marshal(t)
+				tu := &unit{idx: 5000000 + u.idx, raw: raw, c: t, hash: treeHash(t)}
+				tu.configs = pickConfigs(allConfigs(t, render(t, false)), 2, tu.idx+int(r.Seed))
+				units = append(units, tu)
+				jsxTwins++
+			}
+		}
 		process(r, units, st)
 		r.Logf("round %d: %d new trees (%d so far, %d configurations, %d executions, %d violations, %d drift), %.0fs", round+1, len(units), total,
 			st.configsRun, st.executions, r.Violations(), st.drift, time.Since(t0).Seconds())
@@ -1370,6 +1523,7 @@ func Run(r *core.Run) {
 	wg.Wait()
 	r.AddTraces(int64(st.executions + cexSt.executions + cexModSt.executions))
 	r.Set("trees", st.cases)
+	r.Set("jsx_twin_trees", jsxTwins)
 	r.Set("configurations_run", st.configsRun)
 	r.Set("configurations_rejected_by_esbuild", st.rejected)
 	r.Set("configurations_rejected_reasons", st.rejectedWhy)
